@@ -4,6 +4,7 @@
 package dohmem
 
 import (
+	"context"
 	"fmt"
 	"io"
 	"net/http"
@@ -42,6 +43,9 @@ type Server struct {
 	Zone    func(name string, qtype uint16) Answer
 	Log     []Query
 	OnQuery func(q Query) // optional scheduling/clock hook, called before answering
+	// Delay, if set, runs with the request's context before the answer is produced (e.g. a scheduler-aware sleep that ends early
+	// when the context does): a lookup in flight can be abandoned, as a real HTTP round trip can
+	Delay func(ctx context.Context, q Query)
 }
 
 func (s *Server) Queries() []Query {
@@ -69,6 +73,9 @@ func (s *Server) RoundTrip(req *http.Request) (*http.Response, error) {
 	s.mu.Unlock()
 	if hook != nil {
 		hook(qq)
+	}
+	if s.Delay != nil {
+		s.Delay(req.Context(), qq)
 	}
 	if err := req.Context().Err(); err != nil {
 		return nil, err
